@@ -39,7 +39,7 @@ def cases(draw, tier):
     txt = draw(nets.net_spec(cls="H", kind=kind, max_edges=5, max_size=4, allow_empty=False, with_attrs=False, min_edges=1,
                              ids=draw(st.sampled_from(["auto", "perm", "gap", "str"]))))
     shape = draw(st.sampled_from([None, None, [1, 1], [1, 3], [3, 1], [2, 2]]))
-    return {"spec": spec, "other": other, "text": txt, "delim": draw(st.sampled_from(DELIMS)), "shape": shape,
+    return {"spec": spec, "other": other, "text": txt, "delim": draw(st.sampled_from(DELIMS)), "shape": shape, "explicit_str": draw(st.booleans()),
             "coll": draw(st.sampled_from(["list", "dict"])), "cname": draw(st.sampled_from(["", "c", "my_set"]))}
 
 
@@ -129,8 +129,10 @@ def _run(case, ctx, tmp):
     T = nets.build(case["text"])
     delim = case["delim"]
     tn, te = list(T.nodes), list(T.edges)
-    nt = int if homogeneous(tn, int) else None
-    et = int if homogeneous(te, int) else None
+    # documented casts: int for int labels; for string labels either no cast or an explicit `str`
+    strcast = str if case.get("explicit_str") else None
+    nt = int if homogeneous(tn, int) else strcast
+    et = int if homogeneous(te, int) else strcast
     I = inc(T)
     members = T.edges.members(dtype=dict)
     if case["shape"]:
